@@ -1,5 +1,89 @@
-"""Check of property C15."""
-from ..props import CHECKS, report_mismatches
+"""Check of property C15: sequential stream `idm` + concurrent exploration `concidm` (overlay scheduler)."""
+import json, os
+from ..props import CHECKS, REPLAYERS, report_mismatches
+
+CONC_STREAM = {"name": "concidm", "harness": "concidm", "driver": "concidm", "overlay": True}
+KF_WINDOW = "C15-adduser-delgroup-window"
+
+
+def classify(f):
+    """A non-linearizable outcome is the known AddUser/DelGroup window iff: a thread's AddUser x g got past its
+    group look-up (did not answer UnknownGroup) while ANOTHER thread ran DelGroup g successfully and a call on the
+    same user name x ran outside the AddUser's thread - later in the DelGroup thread's program, or in a third
+    thread (it can then sit, in real time, between DelGroup and the second section of that AddUser)."""
+    if f["kind"] != "nonlin":
+        return None
+    calls = f["calls"]
+    for i, ti in enumerate(calls):
+        for a in ti:
+            if a["op"] != "AU" or a["res"].startswith("E UG"):
+                continue
+            x, g = a["args"][0], a["args"][1]
+            for j, tj in enumerate(calls):
+                if j == i:
+                    continue
+                for k, b in enumerate(tj):
+                    if b["op"] == "DG" and b["args"][0] == g and b["res"] == "NIL":
+                        if any(c["op"] in ("DU", "LU", "AU") and c["args"][0] == x for c in tj[k + 1:]):
+                            return KF_WINDOW
+                        for m, tm in enumerate(calls):
+                            if m not in (i, j) and any(c["op"] in ("DU", "LU", "AU") and c["args"][0] == x for c in tm):
+                                return KF_WINDOW
+    return None
+
+
+def load_findings(ctx, name):
+    p = os.path.join(ctx.dir, name + ".findings.jsonl")
+    return [json.loads(l) for l in open(p) if l.strip()] if os.path.exists(p) else []
+
+
+WHAT = {"nonlin": "results + final maps equal to no sequential order of the same calls",
+        "inconsistent": "the four maps of MemIdm disagree after the execution",
+        "deadlock": "every live goroutine waits for a held lock",
+        "panic": "a call panicked under this interleaving"}
+
+
+def concurrent_part(ctx):
+    from .. import overlay
+    kf = {k["id"]: k for k in ctx.kf}
+    reproduced = set()
+    wit = [(k["id"], k["witness"]["case"]) for k in ctx.kf if isinstance(k.get("witness"), dict) and k["witness"].get("engine") == "concidm"]
+    if wit:
+        mm = overlay.stream(ctx, "concidm-witness", "concidm", "concidm", replay_lines=[c for _, c in wit])
+        if mm is None:
+            return
+        for f in load_findings(ctx, "concidm-witness"):
+            kid = classify(f)
+            if kid in kf:
+                reproduced.add(kid)
+    mm = overlay.stream(ctx, "concidm", "concidm", "concidm")
+    if mm is None:
+        return
+    for (i, c, m, o) in mm[:2]:
+        ctx.violation("concidm-tie", "the instrumented MemIdm and the extracted model MemIdm.crun disagree (same program, same schedule: results, "
+                      "lock trace per call = section structure, or final maps differ) on %d explored executions" % len(mm),
+                      {"engine": "concidm", "conc_stream": CONC_STREAM, "case": c, "model": m, "observed": o, "mismatching_cases_in_run": len(mm)})
+    un, classes = [], {}
+    for f in load_findings(ctx, "concidm"):
+        kid = classify(f)
+        if kid is None or kid not in kf:
+            un.append(f)
+        else:
+            reproduced.add(kid)
+            classes.setdefault(kid, {"executions": 0, "signatures": 0})
+            classes[kid]["executions"] += f["count"]
+            classes[kid]["signatures"] += 1
+    un.sort(key=lambda f: (sum(len(t) for t in f["calls"]), f["steps"], f["sig"]))
+    for f in un[:3]:
+        ctx.violation("concidm-" + f["kind"], "MemIdm: %s; not the listed AddUser/DelGroup window [%s | %d executions]%s" % (
+            WHAT[f["kind"]], f["program"], f["count"], (" - " + f["detail"]) if f.get("detail") else ""),
+            {"engine": "concidm", "conc_stream": CONC_STREAM, "case": f["case"], "observed": f["observed"], "kind": f["kind"],
+             "sequential_outcomes": f.get("sequential_outcomes"), "unclassified_signatures_in_run": len(un)})
+    for kid in sorted(reproduced):
+        ctx.known_finding(kid, kf[kid]["what"])
+    ctx.coverage["known_finding_classes"] = classes
+    ctx.coverage["trusted_base"] += [
+        "overlay instrumentation (lib/vcheck/overlay.py, fails closed) and the deterministic scheduler harness/sched; granularity: a critical section is atomic (sound under the lock discipline of C08)"]
 
 
 def check_C15(ctx):
@@ -9,6 +93,30 @@ def check_C15(ctx):
     if mm is None:
         return
     report_mismatches(ctx, mm, st, "MemIdm answers differ from the two-list reference (model proved equal to it, theorem C15_refine) on %d generated histories")
+    concurrent_part(ctx)
+
+
+def replay_C15(ctx, obj):
+    from .. import overlay
+    mm = overlay.stream(ctx, "concidm-replay", "concidm", "concidm", replay_lines=[obj["case"]])
+    if mm is None:
+        return ctx.finish(write_evidence=False)
+    bad = False
+    for (i, c, m, o) in mm:
+        print("replay: implementation and model differ\n case:     %s\n model:    %s\n observed: %s" % (c, m, o))
+        ctx.violation("replay", obj.get("what", "replayed case still fails"), dict(obj, model=m, observed=o))
+        bad = True
+    kf = {k["id"] for k in ctx.kf}
+    for f in load_findings(ctx, "concidm-replay"):
+        kid = classify(f)
+        print("replay: %s: %s -> %s" % (f["kind"], f["observed"].split(" | ")[1], kid or "no known-finding class"))
+        if kid is None or kid not in kf:
+            ctx.violation("replay", obj.get("what", "replayed case still fails"), dict(obj, observed=f["observed"]))
+            bad = True
+    if not bad:
+        print("replay: no unlisted deviation on this case now")
+    return ctx.finish(write_evidence=False)
 
 
 CHECKS["C15"] = check_C15
+REPLAYERS["C15"] = replay_C15
